@@ -551,6 +551,35 @@ theorem fill_more_has_room (size start e avail : Nat) (h : e - start < size) (ha
   simp only [this, if_false]
   exact ⟨_, rfl, by omega⟩
 
+/-! ## the TCP connection's drain buffer: every staged reply leaves once, in order -/
+
+/-- **At most once and in order, whatever happens.**  For every interleaving
+of replies being staged (any sizes: fitting, overflowing the drain buffer,
+larger than it, over dns.MaxMsgSize), flushes and the peer going away at any
+point, what reached the connection followed by what is still staged is a
+subsequence of the replies handed to `stage`, in their order: no reply is
+written twice, none overtakes another, nothing else is written. -/
+theorem drain_at_most_once_in_order (drainSize maxMsg : Nat) (ops : List DOp) :
+    ((Drain.run drainSize maxMsg {} ops).1.wire ++ (Drain.run drainSize maxMsg {} ops).1.staged).Sublist
+      (stagedIds ops) := by
+  have := dinv_run drainSize maxMsg {} [] ops ⟨by simp, fun _ => rfl⟩
+  simpa using this.1
+
+/-- **Exactly once when no write fails.**  If the peer stays and every reply
+fits a DNS message, every `stage` and `flush` succeeds and after the flush the
+connection performs before it blocks the wire carries exactly the staged
+replies, each once, in order. -/
+theorem drain_exactly_once_without_write_errors (drainSize : Nat) (ops : List DOp) (h : noBreak ops = true) :
+    ((Drain.run drainSize 65535 {} ops).1.flush).1.wire = stagedIds ops ∧
+    ((Drain.run drainSize 65535 {} ops).1.flush).1.staged = [] ∧
+    ∀ b ∈ (Drain.run drainSize 65535 {} ops).2, b = true := by
+  obtain ⟨h1, h2⟩ := deq_run drainSize {} [] ops h ⟨rfl, rfl, rfl, fun _ => rfl⟩
+  obtain ⟨hf, _, hnil, _⟩ := deq_flush _ _ h1
+  refine ⟨?_, hnil, h2⟩
+  have := hf.1
+  rw [hnil, List.append_nil] at this
+  simpa using this
+
 /-! ## Resolver.groupLookup: a failed leader's error stays local -/
 
 /-- **Request-local leader errors are not handed to followers.**  A caller
@@ -660,6 +689,11 @@ example : primingTail 1 2 = (false, false) ∧ primingTail 2 2 = (true, false) :
 example : dialerIndex 1 65535 = 0 ∧ dialerIndex 3 65535 = 2 ∧ dialerIndex 3 0 = 0 := by decide
 -- a frame straddling the end of the 4 KB buffer: 50 unread bytes flush against the end are moved to the front
 example : fillMore 4096 4046 4096 5000 = some (0, 4046) ∧ fillMore 4096 0 4096 10 = none := by decide
+-- three small replies, one larger than the 8 KB drain buffer (written on its own after a flush), one more: all five, in order
+example : ((Drain.run 8192 65535 {} [.stage 1 100, .stage 2 5000, .stage 3 5000, .stage 4 20000, .stage 5 10]).1.flush).1.wire
+    = [1, 2, 3, 4, 5] := by decide
+-- the peer leaves after the second reply was flushed: nothing is written twice, the rest is dropped
+example : (Drain.run 8192 65535 {} [.stage 1 100, .stage 2 100, .flush, .break, .stage 3 100, .flush, .stage 4 100]).1.wire = [1, 2] := by decide
 -- quota 2: two admitted, two shed, both leave: the counter is back at zero and the zone is open again
 example :
     let z := [ZOp.enter, .enter, .enter, .enter, .leave, .leave].foldl (ZL.step 2) {}
